@@ -128,22 +128,30 @@ def simroot(tag: str) -> Path:
 # worker
 # --------------------------------------------------------------------------- #
 def _worker(check_name: str, w: int, workers: int, seed_: int, runs: int, deadline: float,
-            conn, options: dict) -> None:
+            conn, options: dict, run_list=None) -> None:
     import importlib  # noqa: PLC0415
 
     check = importlib.import_module(f"simverif.{check_name}")
     zy = ZygoteSet(check.PROFILE, seed_)
     try:
         ctx = check.Context(zy, seed_, options)
-        r = w
-        while r < runs and time.time() < deadline:
+        position = w
+        while time.time() < deadline:
+            if run_list is not None:
+                if position >= len(run_list):
+                    break
+                r = run_list[position]
+            else:
+                r = position
+                if r >= runs:
+                    break
             try:
                 record = ctx.run(r)
             except HarnessError as exc:
                 conn.send({"run": r, "harness_error": str(exc)})
                 break
             conn.send(record)
-            r += workers
+            position += workers
         conn.send({"done": w, "extra": ctx.finish()})
     except BaseException as exc:  # noqa: BLE001
         conn.send({"run": -1, "harness_error": f"worker {w}: {type(exc).__name__}: {exc}\n"
@@ -154,26 +162,14 @@ def _worker(check_name: str, w: int, workers: int, seed_: int, runs: int, deadli
         conn.close()
 
 
-def run_check(check_name: str, tier: str, runs: int, budget_s: float, options: dict | None = None) -> int:
-    """Run a check over runs 0..runs-1 (or until the budget), write evidence, print verdict."""
-    import importlib  # noqa: PLC0415
-
-    options = dict(options or {})
-    options["tier"] = tier
-    check = importlib.import_module(f"simverif.{check_name}")
-    prop = check.PROP
-    seed_ = core.seed()
-    workers = max(1, min(core.env_int("VERIF_WORKERS", 16), runs))
-    watch = core.Stopwatch()
-    print(f"VERIF_SEED={seed_} property={prop} tier={tier} workers={workers} runs<={runs} "
-          f"budget_s={budget_s} repo={core.REPO} check_version={CHECK_VERSION}", flush=True)
-    deadline = time.time() + budget_s
+def _batch(check_name, seed_, run_list, runs, workers, deadline, options):
+    """Execute runs (explicit list, or 0,1,2,... until the deadline) on ``workers`` processes."""
     ctx = mp.get_context("fork")
     conns, procs = [], []
     for w in range(workers):
         parent, child = ctx.Pipe(duplex=False)
         p = ctx.Process(target=_worker,
-                        args=(check_name, w, workers, seed_, runs, deadline, child, options))
+                        args=(check_name, w, workers, seed_, runs, deadline, child, options, run_list))
         p.start()
         child.close()
         conns.append(parent)
@@ -204,6 +200,50 @@ def run_check(check_name: str, tier: str, runs: int, budget_s: float, options: d
         p.join(timeout=10)
         if p.is_alive():
             p.kill()
+    records.sort(key=lambda rec: rec["run"])
+    return records, extras, harness_errors
+
+
+def collect(check_name: str, runs: int, out_path: str) -> int:
+    """Determinism self-test helper: per-run digests of everything a run observed."""
+    seed_ = core.seed()
+    workers = max(1, min(core.env_int("VERIF_WORKERS", 16), runs))
+    records, _, errors = _batch(check_name, seed_, list(range(runs)), runs, workers,
+                                time.time() + 3600, {"tier": "selftest"})
+    doc = {str(r["run"]): core.sha([r["stats"], sorted(v["sig"] for v in r.get("violations", []))])
+           for r in records}
+    Path(out_path).write_text(json.dumps({"digests": doc, "errors": errors}, indent=0))
+    return core.EXIT_HARNESS if errors else core.EXIT_OK
+
+
+def run_check(check_name: str, tier: str, runs: int, budget_s: float, options: dict | None = None) -> int:
+    """Run a check over runs 0..runs-1 (or until the budget), write evidence, print verdict."""
+    import importlib  # noqa: PLC0415
+
+    options = dict(options or {})
+    options["tier"] = tier
+    check = importlib.import_module(f"simverif.{check_name}")
+    prop = check.PROP
+    seed_ = core.seed()
+    workers = max(1, min(core.env_int("VERIF_WORKERS", 16), runs))
+    watch = core.Stopwatch()
+    print(f"VERIF_SEED={seed_} property={prop} tier={tier} workers={workers} runs<={runs} "
+          f"budget_s={budget_s} repo={core.REPO} check_version={CHECK_VERSION}", flush=True)
+    deadline = time.time() + budget_s
+    records, extras, harness_errors = _batch(check_name, seed_, list(range(runs)) if runs < 10**8 else None,
+                                             runs, workers, deadline, options)
+    # determinism probe: re-execute the first runs under another worker assignment
+    n_re = min(int(options.get("recheck_runs", 12)), len(records))
+    if n_re and not harness_errors:
+        redo, _, errs = _batch(check_name, seed_, [r["run"] for r in records[:n_re]], n_re,
+                               max(1, min(5, n_re)), time.time() + 600, dict(options, recheck=True))
+        harness_errors += errs
+        first = {r["run"]: core.sha([r["stats"], sorted(v["sig"] for v in r.get("violations", []))]) for r in records[:n_re]}
+        for r in redo:
+            again = core.sha([r["stats"], sorted(v["sig"] for v in r.get("violations", []))])
+            if first.get(r["run"]) != again:
+                options.setdefault("nondeterministic_runs", []).append(r["run"])
+        options["rechecked_runs"] = len(redo)
     records.sort(key=lambda rec: rec["run"])
     return _report(check, prop, tier, seed_, records, extras, harness_errors, watch, options)
 
@@ -278,6 +318,8 @@ def _report(check, prop, tier, seed_, records, extras, harness_errors, watch, op
     coverage["runs_per_hour"] = round(len(records) / max(watch.elapsed(), 1e-9) * 3600)
     coverage["known_findings_seen"] = sorted(listed)
     coverage["check_version"] = CHECK_VERSION
+    coverage["determinism_recheck"] = {"runs_re_executed_under_other_worker_assignment": options.get("rechecked_runs", 0),
+                                       "diverging_runs": options.get("nondeterministic_runs", [])}
     core.write_evidence(prop, tier, seed_, coverage, watch.elapsed(), len(new), check.ASSUMPTIONS)
     for sig, (k, rec, v) in sorted(listed.items()):
         print(f"KNOWN-FINDING: property={prop} sig={sig} {k['text']}")
@@ -289,6 +331,10 @@ def _report(check, prop, tier, seed_, records, extras, harness_errors, watch, op
     if not records:
         print(f"HARNESS-ERROR property={prop}: no runs executed")
         return core.EXIT_HARNESS
+    if options.get("nondeterministic_runs"):
+        print(f"HARNESS-NONDETERMINISM property={prop}: runs {options['nondeterministic_runs']} gave another "
+              "event digest when re-executed; nothing is claimed")
+        return core.EXIT_NONDET
     if new:
         seen = set()
         nondet = False
